@@ -775,6 +775,38 @@ def xnorm(fnode: ast.AST, e: ast.AST, rounds: int = 4, stop=()) -> str:
     return norm(holder.value)
 
 
+_ROUNDING = ("round", "floor", "ceil", "trunc", "rint", "around", "fix", "int", "float16", "float32", "quantize")
+
+
+def check_segment_verbatim(ctx: Ctx, rule: str):
+    """`add` stores the segment it is given.  Rounding its boundaries (or any arithmetic on them) before the unit is built puts every unit on an
+    absolute grid: the stored times are no longer the caller's / the file's, and what is rounded away depends on the scale of the time axis
+    (recognised shape, wrong slot).  Other rebindings of the parameter are the parameter guard's business."""
+    M = ctx.model
+    g = M.functions.get("Continuum.add")
+    if g is None or len(g.params) < 3:
+        return
+    ctx.functions_analysed.add(g.qualname)
+    ps = g.params[2]
+    hit = None
+    names = {ps}
+    for st in walk_no_nested(g.node):
+        if isinstance(st, ast.Assign) and len(st.targets) == 1 and isinstance(st.targets[0], ast.Name) and any(isinstance(n, ast.Name) and n.id in names for n in ast.walk(st.value)):
+            calls = [dotted(c.func) or "" for c in ast.walk(st.value) if isinstance(c, ast.Call)]
+            arith = [b for b in ast.walk(st.value) if isinstance(b, ast.BinOp) and any(isinstance(a, ast.Attribute) and a.attr in ("start", "end") for a in ast.walk(b))]
+            if any(c.split(".")[-1] in _ROUNDING for c in calls) or arith:
+                if st.targets[0].id == ps or any(isinstance(c, ast.Call) and dotted(c.func) == "Segment" for c in ast.walk(st.value)):
+                    hit = hit or st
+            names.add(st.targets[0].id)
+    # the unit that is inserted is built from a rounded / shifted segment
+    units = [c for c in walk_no_nested(g.node) if isinstance(c, ast.Call) and dotted(c.func) == "Unit"]
+    if hit is not None and units:
+        ctx.bad(rule, g, hit, f"Continuum.add rebuilds the segment it is given (`{norm(hit)[:90]}`) before storing the unit: the boundaries are rounded / transformed on an "
+                f"absolute scale, so the stored times are not the given ones and depend on the unit of the time axis", key="segment-verbatim")
+    else:
+        ctx.ok(rule, g, None, "Continuum.add does not round or shift the boundaries of the segment it is given", construct="segment verbatim", key="segment-verbatim")
+
+
 def check_annotator_order(ctx: Ctx, rule: str, judge: bool = False):
     """`annotators` (a plain sorted set of the names) and the iteration order of `_annotations` are the same order only while the mapping is a
     SortedDict without a key function."""
@@ -919,6 +951,22 @@ def check_sampler_init(ctx: Ctx, rule: str):
         p_ref, p_gt = f.params[1:3]
         cfg = CFG(f.node)
         if f.cls.name == "AbstractContinuumSampler":
+            # nothing an earlier call recorded may flow into what this call records: a read of the ground-truth field anywhere, or of the
+            # reference field before this call has stored it, brings the previous initialisation's value along
+            order_ = source_order(f.node)
+            ref_stores_ = [s for s in walk_no_nested(f.node) if isinstance(s, ast.Assign) and norm(s.targets[0]) == f"{sn}._reference_continuum"]
+            first_ref_ = min((order_[id(s)] for s in ref_stores_), default=None)
+            stale_ = None
+            for x in walk_no_nested(f.node):
+                if isinstance(x, ast.Attribute) and isinstance(x.ctx, ast.Load) and isinstance(x.value, ast.Name) and x.value.id == sn:
+                    if x.attr == "_ground_truth_annotators":
+                        stale_ = stale_ or x
+                    elif x.attr == "_reference_continuum" and (first_ref_ is None or order_[id(x)] < first_ref_):
+                        stale_ = stale_ or x
+            if stale_ is not None:
+                ctx.bad(rule, f, stale_, f"{f.qualname} reads `{norm(stale_)}` as an earlier initialisation left it: what this call records depends on the previous reference / "
+                        f"ground truth of the same sampler object (a second initialisation without ground truth keeps the annotators of the first)", key="sampler-init:stale-read")
+                continue
             groups = []
             for fld, ok_value in (("_reference_continuum", lambda v: norm(v) == p_ref),
                                   ("_ground_truth_annotators", lambda v: p_gt in {n.id for n in ast.walk(v) if isinstance(n, ast.Name)} or
